@@ -83,7 +83,7 @@ type uEvent struct {
 	R        uChain `json:"r"`
 	Special  bool   `json:"special"`  // the request carries a value with URL-reserved characters
 	JSONLbl  bool   `json:"jsonlbl"`  // the filter label needs a JSON escape once parsed (backslash, quote, control character, leading brace)
-	HasEmpty bool   `json:"hasempty"` // the parsed URL has a field-selection entry without any field
+	HasEmpty bool   `json:"hasempty"` // the parsed URL has an empty field-selection entry for a type that has no field
 	Ret      string `json:"ret"`
 }
 
@@ -109,7 +109,7 @@ type uCase struct {
 }
 
 var urlFields = map[string]defMap{
-	"ta": {"x": {Kind: "attr", K: "string"}, "y": {Kind: "attr", K: "int", Null: true},
+	"ta": {"x": {Kind: "attr", K: "string"}, "y": {Kind: "attr", K: "int", Null: true}, "X": {Kind: "attr", K: "bool"},
 		"r": {Kind: "rel", To1: true, TT: "tb"}, "rs": {Kind: "rel", To1: false, TT: "tb"}, "t": {Kind: "rel", To1: true, TT: "td"}},
 	"tb": {"z": {Kind: "attr", K: "string"}, "q": {Kind: "rel", To1: true, TT: "ta"}, "s": {Kind: "rel", To1: false, TT: "ta"}},
 	"tc": {},
@@ -540,8 +540,10 @@ func runChain(c uCase, raw string, schema *jsonapi.Schema, req uReq) uEvent {
 			ev.Ret = "skip" // not an accepted URL: nothing to say
 			return
 		}
-		for _, names := range u1.Params.Fields {
-			if len(names) == 0 {
+		for t, names := range u1.Params.Fields {
+			// (only a type that has no field at all can come without one: any other type gets all of
+			// its fields when nothing valid was asked for - an empty list there is no known deviation)
+			if typ := schema.GetType(t); len(names) == 0 && len(typ.Attrs)+len(typ.Rels) == 0 {
 				ev.HasEmpty = true
 			}
 		}
